@@ -27,6 +27,7 @@ class ScriptedSocket:
         self.closed = closed
         self.after_eof = 0
         self.sent = b''
+        self.send_limit = 0
 
     def recv(self, n: int, *a) -> bytes:
         if self.chunks:
@@ -46,6 +47,12 @@ class ScriptedSocket:
 
     def sendall(self, data: bytes) -> None:
         self.sent += data
+
+    def send(self, data: bytes, *a) -> int:
+        # a stream socket may take only part of the data (full buffer, slow peer)
+        n = min(len(data), self.send_limit) if self.send_limit else len(data)
+        self.sent += data[:n]
+        return n
 
     def close(self) -> None:
         pass
@@ -84,6 +91,7 @@ def send_events(r, n: int) -> List[Dict[str, Any]]:
         texts.append(''.join(chr(r.randrange(32, 127)) for _ in range(r.randrange(0, 60))))
     for k, t in enumerate(texts):
         sock = ScriptedSocket([], True)
+        sock.send_limit = [0, 1, 7, 16, 40][k % 5]     # short writes of the transport
         MessageInterface(sock).send_message(t)
         evs.append({'tid': f'snd{k}', 'ev': 'send', 'text': list(t.encode('ascii')),
                     'bytes': list(sock.sent)})
